@@ -693,6 +693,15 @@ def standard_flow(ctx, spec):
                     reported += 1
     broken = ctx.failed_obligations()
     cmis = res["C"] if res else []
+    if reported > 0 and broken:
+        # failing inputs were found and reported above; the broken obligations are named too
+        # (their own replay), since the failing inputs need not be the reason they broke
+        names = [n for n, _ in broken]
+        ctx.report_failure("broken:" + ";".join(names)[:300],
+                           "no longer checks: " + ", ".join(names)[:300] + " (failing inputs reported separately)",
+                           {"kind": "proof obligation no longer checks; failing inputs were found and are reported in their own replay files",
+                            "no_longer_checks": names,
+                            "details": {n: d[:1500] for n, d in broken}}, no_input=False)
     if reported == 0 and (broken or cmis):
         # correspondence / proof obligation broken, no failing input yet: search
         found = False
